@@ -24,8 +24,9 @@
               products) -- for every p; proved per graph by evaluation + ring: edge, path-3, path-4, 3-star;
          (3b) where the closure holds at p, _dSIR_pair_based_ at the marginals equals open_rhs p [C08t_closed_eq_open,
               every graph];
-         (3c) the closure follows from M: closure residual * <S_j> = a sum of minors (per graph, evaluation + ring) and
-              p >= 0 handles <S_j> = 0, where the code multiplies by 0 [C08t_closure_of_product, every graph].
+         (3c) the closure follows from M: closure residual = a sum of minors [C08t_residual_eq, every n, every cut]
+              and p >= 0 handles <S_j> = 0, where the code multiplies by 0 [C08t_closure_of_product, C08t_closure_on_M];
+              (3b) + (3c) for every graph whose paths are separated by listed cuts: C08t_closed_eq_open_on_M.
    C08t_path3_pure_ic_partial, C08t_path4_..., C08t_star3_... assemble (1) (2) (3) for the trees with 3 and 4 nodes.
 
    `_partial`, what is missing for the clause as stated:
@@ -34,11 +35,12 @@
        p(t) solve the pair-based system from the same initial vector, and SIR_pair_based returns that solution up to
        solver tolerance (Picard-Lindeloef).  Cited, as everywhere in this development; harness/c08t.py integrates both
        sides and checks the conclusion and every intermediate identity numerically;
-     * trees with 5 or more nodes: (1), (2), (3b), (3c)-second-half are proved for all of them; (3a) and the residual
-       identity are proved only graph by graph (the general re-indexing of sums over joint states is not formalised);
-       the numerical oracle of harness/c08.py (all trees <= 5/6 nodes) and the extracted identities evaluated on random
-       trees by harness/c08t.py cover them as validation. *)
-From EoNV Require Import Prelude Graph Vec VecP Rhs2D Rhs2DP Rhs2 Rhs2GenP Master C08tG C08tS C08tT C08tE C08tP3 C08tP4 C08tC.
+     * trees with 5 or more nodes: (1), (2), (3b), (3c) are proved for all of them; (3a), the unclosed moment equations
+       "marginals (master_rhs p) = open_rhs p" (a linear identity in p with no hypothesis), is proved only graph by
+       graph, by evaluation (edge, path-3, path-4, 3-star); its general proof (summation by parts over the joint
+       states) is not formalised.  harness/c08t.py evaluates it exactly, with the extracted definitions, on random trees
+       with up to 5 nodes, and harness/c08.py compares the curves on all trees <= 5/6 nodes (validation). *)
+From EoNV Require Import Prelude Graph Vec VecP Rhs2D Rhs2DP Rhs2 Rhs2GenP Master C08tG C08tS C08tT C08tR C08tA C08tE C08tP3 C08tP4 C08tC.
 
 (* ---------------- the general master equation is the one the single-edge theorem used ---------------- *)
 Theorem C08t_master_vec_single_edge : forall t01 t10 g0 g1 pSS pSI pSR pIS pII pIR pRS pRI pRR,
@@ -87,6 +89,26 @@ Theorem C08t_closure_of_product : forall nodelist p a i j b k, nonneg nodelist p
   m3 nodelist p a i stS j b k * mX nodelist p j == m2 nodelist p a i stS j * m2 nodelist p stS j b k ->
   closure_at nodelist p a i j b k.
 Proof. exact closure_of_product. Qed.
+
+(* (3c) for every n and every cut: the closure residual is a sum of minors, so the closure holds at every point of
+   M_{j,U} with p >= 0 (i on the U side, k on the other side; both orientations) *)
+Theorem C08t_residual_eq : forall nodelist j U, (j < nN nodelist)%nat -> forall p a i b k,
+  (i < nN nodelist)%nat -> (k < nN nodelist)%nat -> U i = true -> U k = false ->
+  m3 nodelist p a i stS j b k * mX nodelist p j - m2 nodelist p a i stS j * m2 nodelist p stS j b k
+  == residual nodelist j U p a i b k.
+Proof. exact residual_eq. Qed.
+Theorem C08t_closure_on_M : forall nodelist j U, (j < nN nodelist)%nat -> forall p a i b k,
+  (i < nN nodelist)%nat -> (k < nN nodelist)%nat -> U i = true -> U k = false ->
+  nonneg nodelist p -> inM nodelist j U p ->
+  closure_at nodelist p a i j b k /\ closure_at nodelist p b k j a i.
+Proof. exact closure_on_M. Qed.
+(* (3b) + (3c) for EVERY graph all of whose paths i - j - k are separated by a listed cut (coverb; every tree with its
+   branch cuts): on the intersection of the M_{j,U}, p >= 0, _dSIR_pair_based_ at the marginals = the exact unclosed
+   moment system.  What then remains for a tree is (3a) alone. *)
+Theorem C08t_closed_eq_open_on_M : forall G nodelist idx tr rc, pb_wfb G nodelist idx = true ->
+  forall cuts p t, coverb G nodelist cuts = true -> nonneg nodelist p -> inMs nodelist cuts p ->
+  veq (dSIR_pair_based G nodelist idx tr rc (marginals G nodelist p) t) (open_rhs G nodelist idx tr rc p).
+Proof. exact closed_eq_open_on_M. Qed.
 
 (* ---------------- (3a) unclosed moment equations, for every p ---------------- *)
 Theorem C08t_path3_open : forall tr rc p,
@@ -182,6 +204,16 @@ Example C08t_nonvacuous_product :
   Qeq_bool (prXX nl (marginals path3 nl (master_rhs path3 nl idx_of ex_tr ex_rc p)) 0 1) (- (9 # 8)) = true.
 Proof. vm_compute. split; reflexivity. Qed.
 
+(* coverb is satisfiable beyond the proved graphs: a tree with 5 nodes (0 - 1 - 2 - 3 with a second leaf 4 at 2) and its
+   branch cuts; and it rejects an incomplete list *)
+Definition ex_tree5 : graph := graph_of [(0, [1]); (1, [0; 2]); (2, [1; 3; 4]); (3, [2]); (4, [2])]%N.
+Example C08t_nonvacuous_cover :
+  pb_wfb ex_tree5 (nodes_upto 5) idx_of = true /\
+  coverb ex_tree5 (nodes_upto 5) [(1, only 0); (2, upto 1); (2, only 3)]%nat = true /\
+  coverb ex_tree5 (nodes_upto 5) [(1, only 0); (2, upto 1)]%nat = false /\
+  coverb path4 (nodes_upto 4) [(1, only 0); (2, upto 1)]%nat = true.
+Proof. vm_compute. repeat split; reflexivity. Qed.
+
 Print Assumptions C08t_master_vec_single_edge.
 Print Assumptions C08t_marginals_single_edge.
 Print Assumptions C08t_single_edge_exact.
@@ -192,6 +224,9 @@ Print Assumptions C08t_tangent.
 Print Assumptions C08t_expansion_stays_in_slice.
 Print Assumptions C08t_closed_eq_open.
 Print Assumptions C08t_closure_of_product.
+Print Assumptions C08t_residual_eq.
+Print Assumptions C08t_closure_on_M.
+Print Assumptions C08t_closed_eq_open_on_M.
 Print Assumptions C08t_path3_open.
 Print Assumptions C08t_path4_open.
 Print Assumptions C08t_star3_open.
@@ -203,3 +238,4 @@ Print Assumptions C08t_nonvacuous_graphs.
 Print Assumptions C08t_nonvacuous_pure.
 Print Assumptions C08t_M_is_needed.
 Print Assumptions C08t_nonvacuous_product.
+Print Assumptions C08t_nonvacuous_cover.
